@@ -10,11 +10,13 @@ Check(e) ==
       [] e.kind = "power" ->
            Fails(<< <<"C12 log-energy inside [lower_bound, upper_bound]", InBounds(e.x, e.lo, e.hi)>>,
                     <<"C12 sampled log-energy is the inverse-CDF image of its uniform number: CDF(x) = u",
-                      FClose(CDF(e.x, e.p, e.lo, e.hi), e.u, FZero, FDec("1e-9"))>> >>)
+                      (* on a range only a few ulps wide no double has CDF(x) = u: there x is the double next to the exact quantile *)
+                      \/ FClose(CDF(e.x, e.p, e.lo, e.hi), e.u, FZero, FDec("1e-9"))
+                      \/ FUlps(e.x, Quantile(e.u, e.p, e.lo, e.hi)) <= 4>> >>)
       [] e.kind = "call" ->
            Fails(<< <<"C12 N events are returned", e.len = e.n>>,
                     <<"C12 normalisation x weight-sum = 1", FClose(FMul(e.norm, e.wsum), FOne, FDec("1e-12"), FZero)>>,
-                    <<"C12 the factors are 1/I and I with I the integral of E^-index over the range",
+                    <<"EXT: the factors are 1/I and I with I the integral of E^-index over the range",
                       e.spec = "mono" \/ FClose(e.wsum, Integral(e.p, e.lo, e.hi), FDec("1e-6"), FZero)>>,
                     <<"C12 finite factors", FIsFinite(e.norm) /\ FIsFinite(e.wsum)>> >>)
       [] OTHER -> <<"unknown event kind">>
